@@ -9,6 +9,7 @@ VARIABLE hist
 GInit == Init /\ hist = <<>>
 \* events are printed as integer tuples <<kind, op, n, data, a, b>> (cheap to print and to parse)
 TCode(t) == CASE t = "init" -> 0 [] t = "call" -> 1 [] t = "callret" -> 2 [] t = "fetch" -> 3 [] t = "accept" -> 4 [] t = "ret" -> 5
+                 [] t = "raise" -> 6
 OCode(o) == CASE o = "none" -> 0 [] o = "read" -> 1 [] o = "readline" -> 2 [] o = "write" -> 3 [] o = "flush" -> 4 [] o = "close" -> 5
                  [] o = "readall" -> 1
 Code(e) == <<TCode(e.t), OCode(e.op), e.n, e.d, e.a, e.b>>
